@@ -134,23 +134,42 @@ class AstToSqlVisitor(visitor.NodeVisitor):
         # side this also goes for a subexpression of equal precedence, e.g.:
         # x - (y + z)
         precedence = self._binop_precedence(node)
-        if (
-            isinstance(node.left, ast.BinOp)
-            and self._binop_precedence(node.left) < precedence
-        ):
+        left_precedence = self._binop_precedence(node.left)
+        right_precedence = self._binop_precedence(node.right)
+        if left_precedence and left_precedence < precedence:
             left = f"({left})"
-        if (
-            isinstance(node.right, ast.BinOp)
-            and self._binop_precedence(node.right) <= precedence
-        ):
+        if right_precedence and right_precedence <= precedence:
             right = f"({right})"
 
         return f"{left} {op} {right}"
 
     @staticmethod
-    def _binop_precedence(node: ast.BinOp) -> int:
-        ":meta private:"
-        return 1 if isinstance(node.op, (ast.Add, ast.Sub)) else 2
+    def _binop_precedence(node: ast._Node) -> int:
+        """
+        Precedence of the arithmetic SQL generated for ``node``: 1 for additive,
+        2 for multiplicative, 0 if ``node`` does not result in arithmetic.
+        :meta private:
+        """
+        if isinstance(node, ast.BinOp):
+            return 1 if isinstance(node.op, (ast.Add, ast.Sub)) else 2
+        if isinstance(node, ast.Call) and node.func.name.lower() == "indexof":
+            # Results in `POSITION(...) - 1`
+            return 1
+        return 0
+
+    @staticmethod
+    def _is_predicate_call(node: ast._Node) -> bool:
+        """
+        Whether ``node`` is a function call that results in a SQL predicate
+        (e.g. ``x LIKE y``) instead of a SQL function call.
+        :meta private:
+        """
+        return isinstance(node, ast.Call) and node.func.name.lower() in (
+            "contains",
+            "endswith",
+            "startswith",
+            "hassubset",
+        )
 
     def visit_Eq(self, node: ast.Eq) -> str:
         ":meta private:"
@@ -187,9 +206,13 @@ class AstToSqlVisitor(visitor.NodeVisitor):
         comparator = self.visit(node.comparator)
 
         # In case of a subexpression, wrap it in parentheses
-        if isinstance(node.left, (ast.BoolOp, ast.Compare)):
+        if isinstance(
+            node.left, (ast.BoolOp, ast.Compare)
+        ) or self._is_predicate_call(node.left):
             left = f"({left})"
-        if isinstance(node.right, (ast.BoolOp, ast.Compare)):
+        if isinstance(
+            node.right, (ast.BoolOp, ast.Compare)
+        ) or self._is_predicate_call(node.right):
             right = f"({right})"
 
         # 'null eq x' means the same as 'x eq null':
@@ -247,8 +270,9 @@ class AstToSqlVisitor(visitor.NodeVisitor):
         # In case of a subexpression, wrap it in parentheses
         if isinstance(node.operand, ast.BoolOp):
             operand = f"({operand})"
-        elif isinstance(node.op, ast.USub) and isinstance(
-            node.operand, (ast.BinOp, ast.Compare)
+        elif isinstance(node.op, ast.USub) and (
+            isinstance(node.operand, ast.Compare)
+            or self._binop_precedence(node.operand)
         ):
             operand = f"({operand})"
 
